@@ -1,5 +1,54 @@
-"""C01.R3 placeholder until the taint engine is wired in."""
+"""C01.R3 - no mutation / state advance of values owned by the traced program (host-value taint deny-list)."""
+import ast
+
+from .common import Finding, settrace_entries
+from ..index import norm
+from ..taint import Taint, MUTATING
+
+CONSUMING = {"iterate": "iterate", "builtin:tuple": "tuple", "builtin:list": "list", "builtin:set": "list", "builtin:frozenset": "list",
+             "builtin:sorted": "sorted", "builtin:enumerate": "enumerate", "builtin:dict": "dict", "builtin:sum": "iterate",
+             "builtin:min": "iterate", "builtin:max": "iterate", "builtin:reversed": "list"}
+ADVANCING = {"builtin:next", "builtin:iter"}
 
 
 def check(ctx, res, entries):
-    return
+    from .c06 import Pins
+    from .c01 import reachable
+    p, t = ctx.prog, ctx.types
+    tn = Taint(p, t, [(f, f.params[3]) for f in entries if len(f.params) > 3])
+    pins = Pins(ctx, tn)
+    scope = {}
+    for e in entries:
+        for f in reachable(ctx, e):
+            scope[t.fkey(f)] = f
+    # callbacks handed over as values (the BFS consumer) and classes local to functions
+    from .c06 import collector_scope
+    scope.update(collector_scope(ctx))
+    nops = 0
+    for k in sorted(scope):
+        fi = scope[k]
+        if not fi.module.name.startswith("deep.processor") and not fi.module.name.startswith("deep.api.tracepoint"):
+            continue
+        for op in tn.ops(fi):
+            nops += 1
+            kind = op.kind
+            if kind.startswith("mutate") or (kind.startswith("method:") and kind.split(":", 1)[1] in MUTATING
+                                             and kind.split(":", 1)[1] not in ("pop",) or kind in ("builtin:setattr", "builtin:delattr")):
+                res.fail(Finding("C01.R3", fi.qname, op.node, fi.loc(op.node),
+                                 "%s modifies `%s`, a value owned by the traced program: the program's data differs from a run without the agent" % (
+                                     kind, norm(op.subject)[:60])))
+            elif kind in ADVANCING:
+                res.fail(Finding("C01.R3", fi.qname, op.node, fi.loc(op.node),
+                                 "%s advances `%s`, an iterator/generator of the traced program" % (kind, norm(op.subject)[:60])))
+            elif kind in CONSUMING:
+                caps = pins.caps(op.subject, op.node, fi)
+                if CONSUMING[kind] in caps:
+                    res.ok("C01.R3", {"op": kind, "on": norm(op.subject)[:50], "at": fi.loc(op.node), "why": "pinned to a re-iterable builtin container"})
+                else:
+                    res.fail(Finding("C01.R3", fi.qname, op.node, fi.loc(op.node),
+                                     "%s iterates `%s`, a value of the traced program that is not pinned to a re-iterable builtin container "
+                                     "(dict / list / tuple / set): a generator or one-shot iterator of the application would be consumed" % (
+                                         kind, norm(op.subject)[:60])))
+            else:
+                res.ok("C01.R3")
+    res.floor("operations on host values reachable from the trace callback", nops, 12)
